@@ -200,9 +200,11 @@ def scenarios(sh, rng, mk, hid):
                 continue
             cs = Column(same, 'int')
             t1.add_column(cs)
-            rs = db.add(Reference(kind, cs, t2.columns[0], inline=inline, name='rsameq'))
+            first = rng.random() < 0.5       # the detached column is the first or the second endpoint
+            rs = db.add(Reference(kind, cs, t2.columns[0], inline=inline, name='rsameq') if first else
+                        Reference(kind, t2.columns[0], cs, inline=inline, name='rsameq'))
             t1.delete_column(cs)
-            tag = f'{kind}|{"inline" if inline else "plain"}'
+            tag = f'{kind}|{"inline" if inline else "plain"}|{"first" if first else "second"}'
             expect(sh, f'ref-tableless-column|same-name-both-sides|ref.sql|{tag}', TNF, lambda: rs.sql, case, hid)
             expect(sh, f'ref-tableless-column|same-name-both-sides|ref.dbml|{tag}', TNF, lambda: rs.dbml, case, hid)
             if not inline or kind == '<>':
